@@ -60,7 +60,10 @@ def check_layer(case):
     R = np.array([[(x >> q) & 1 for (x, z) in ops] for q in range(n)], dtype=np.int8)
     S = np.array([[(z >> q) & 1 for (x, z) in ops] for q in range(n)], dtype=np.int8)
     R0, S0 = R.copy(), S.copy()
-    graph = L.Graph.decompress(n, gid)
+    try:
+        graph = L.Graph.decompress(n, gid)
+    except Exception as e:  # noqa: BLE001   (C19's business)
+        return [], {"exists": None, "outcome": f"graph-raised:{type(e).__name__}"}
     sol = brute_solutions(n, gid, ops)
     exists = bool(sol.any())
     fails = []
